@@ -115,7 +115,8 @@ def run_nest(case, used, expr1, z, counters=None):
     if case["expr"].get("plus"):
         # element-wise addition in the union idiom
         a_m, b_m = used["A"].getRoot(), used["B"].getRoot()
-        for m, (z_ref, (mask, a_val, b_val)) in zroot << (a_m | b_m):
+        # (the populate expression may have been built earlier, before the output was changed by another loop: what is traced is its iteration)
+        for m, (z_ref, (mask, a_val, b_val)) in (case["_expr"] if case.get("_expr") is not None else (zroot << (a_m | b_m))):
             bodies[0] += 1
             z_ref <<= a_val + b_val
         return bodies
